@@ -111,7 +111,61 @@ def _l10(run: Run) -> None:
                         f"statistical_weight_of_macrostate reads as a sum of factorials - and `{opname}(x[i], i)**2` like `{opname}(x[i]**2, i)`")
 
 
+def _l12_l13(run: Run) -> None:
+    """L12: SymPy's bracket predicates for factors and function arguments, where overridden, may only ADD brackets. L13: the printer object is not kept across calls."""
+    pm = run.src.need(PRINTER)
+    cls = next((c for c in pm.tree.body if isinstance(c, ast.ClassDef) and any(dotted(b) == "LatexPrinter" for b in c.bases)), None)
+    run.require(cls is not None, "LaTeX printer class not found")
+    for pname in ("_needs_mul_brackets", "_needs_brackets", "_needs_function_brackets"):
+        run.ob("L12", pname)
+        fn = next((f for f in cls.body if isinstance(f, ast.FunctionDef) and f.name == pname), None)
+        if fn is None:
+            continue  # SymPy's own predicate is used as it is
+
+        def from_super(e) -> bool:
+            # True | super().<same predicate>(...) | bool(super()...) | <anything> or super()...   -- brackets SymPy asks for are never dropped
+            if isinstance(e, ast.Constant) and e.value is True:
+                return True
+            if isinstance(e, ast.Call) and dotted(e.func) == "bool" and len(e.args) == 1:
+                return from_super(e.args[0])
+            if isinstance(e, ast.Call) and isinstance(e.func, ast.Attribute) and e.func.attr == pname and isinstance(e.func.value, ast.Call) and dotted(e.func.value.func) == "super":
+                return True
+            if isinstance(e, ast.BoolOp) and isinstance(e.op, ast.Or):
+                return any(from_super(v) for v in e.values)
+            return False
+        for r in [x for x in ast.walk(fn) if isinstance(x, ast.Return)]:
+            if r.value is None or not from_super(r.value):
+                run.violate("L12", f"{PRINTER}:{pname}:{norm(r.value, 40) if r.value is not None else 'None'}", pm, r,
+                            f"the override of SymPy's {pname} answers `{norm(r.value, 60) if r.value is not None else 'None'}` without asking SymPy's own predicate: brackets SymPy would put around a factor "
+                            f"(a sum as the last factor: b*(a + x)) can be dropped, which changes the meaning of the formula")
+    # L13: settings of one call must not leak into the next: no module-level printer object that latex_str / code_str reuse
+    for modname in (PRINTER, "symplyphysics.docs.printer_code"):
+        m = run.src.need(modname)
+        run.ob("L13", modname)
+        printer_classes = {c.name for c in m.tree.body if isinstance(c, ast.ClassDef)}
+        for fn in [f for f in ast.walk(m.tree) if isinstance(f, ast.FunctionDef)]:
+            globs = {nm for g in ast.walk(fn) if isinstance(g, ast.Global) for nm in g.names}
+            for a in [x for x in ast.walk(fn) if isinstance(x, ast.Assign)]:
+                params = {p_.arg for p_ in fn.args.posonlyargs + fn.args.args + fn.args.kwonlyargs} | ({fn.args.vararg.arg} if fn.args.vararg else set()) | ({fn.args.kwarg.arg} if fn.args.kwarg else set())
+                from_caller = isinstance(a.value, ast.Call) and any(isinstance(x, ast.Name) and x.id in params for y in list(a.value.args) + [k.value for k in a.value.keywords] for x in ast.walk(y))
+                # a printer built from nothing but constants may be kept (it is the same for everybody); one built from the caller's settings may not
+                if from_caller and any(isinstance(t, ast.Name) and t.id in globs for t in a.targets) and isinstance(a.value, ast.Call) and (dotted(a.value.func) or "").split(".")[-1] in printer_classes:
+                    run.violate("L13", f"{modname}:{fn.name}:global-printer", m, a,
+                                f"{fn.name} stores a printer object in a module-level name: a printer built for one caller's settings (fold_func_brackets, symbol_names, mode) "
+                                f"renders the next, default call as well - x(t) comes out as `xt`")
+        for a in [x for x in m.tree.body if isinstance(x, (ast.Assign, ast.AnnAssign)) and x.value is not None]:
+            if isinstance(a.value, ast.Call) and (dotted(a.value.func) or "").split(".")[-1] in printer_classes:
+                tg = a.targets[0] if isinstance(a, ast.Assign) else a.target
+                # a module-level default printer is fine as long as nothing re-binds or mutates it; a function that passes settings to it is not
+                uses = [x for f in ast.walk(m.tree) if isinstance(f, ast.FunctionDef) for x in ast.walk(f) if isinstance(x, ast.Attribute) and dotted(x.value) == dotted(tg) and x.attr in ("_settings", "_print_level")]
+                if uses:
+                    run.violate("L13", f"{modname}:{dotted(tg)}:shared-printer-settings", m, uses[0], "the settings of a shared module-level printer are changed inside a function: they persist into later calls")
+
+
 def check(run: Run) -> None:
+    run.rule("L12", "an override of SymPy's _needs_mul_brackets / _needs_brackets / _needs_function_brackets returns True or SymPy's own answer (possibly or-ed): it only adds brackets")
+    run.rule("L13", "latex_str / code_str build their printer per call: no printer object is kept in a module-level name across calls (settings of one call would render the next)")
+    _l12_l13(run)
     run.rule("L1", "every string template emitted by the LaTeX printer's methods is brace- and \\left/\\right-balanced on its own")
     run.rule("L2", "every display_latex= / subscript= literal and the clone/vector name templates are balanced")
     run.rule("L3", "LaTeX strings are only ever composed, never cut: no strip/partition/split/replace/slice on a name or a printed sub-result "
